@@ -24,7 +24,7 @@ var (
 	flagBudget  = flag.Duration("budget", 0, "wall-clock budget; stop starting new runs after it")
 	flagHashes  = flag.Bool("hashes", false, "print seed and trace hash per run")
 	flagProp    = flag.String("prop", "", "property whose violations count (others are notes)")
-	flagMaxViol = flag.Int("maxviol", 20, "stop after this many violating runs")
+	flagMaxViol = flag.Int("maxviol", 1500, "record at most this many violating runs (and at most maxPerSig per violation signature)")
 	flagTier    = flag.String("tier", "quick", "quick or thorough")
 	flagWIdx    = flag.Int("widx", 0, "index of this worker among the workers of its profile")
 	flagWN      = flag.Int("wn", 1, "number of workers of this profile")
@@ -150,7 +150,7 @@ func WorkerMain(t *testing.T) {
 				out.Notes[v.Sig]++
 			}
 		}
-		if mine && len(out.Failures) < *flagMaxViol {
+		if mine && keepFailure(len(out.Failures), res) {
 			res.HistText = res.histText()
 			out.Failures = append(out.Failures, res)
 		}
@@ -177,6 +177,34 @@ func WorkerMain(t *testing.T) {
 	} else if !*flagTrace {
 		fmt.Println(string(b))
 	}
+}
+
+// keepFailure decides whether a violating run is recorded in the worker's
+// output. The bound is per violation signature, not on the total: a signature
+// that fires in every tenth run (a known finding, say) must not use up the
+// room, or a different violation later in the same worker would go unreported.
+const maxPerSig = 3
+
+var keptPerSig = map[string]int{}
+
+func keepFailure(have int, res *Result) bool {
+	if have >= *flagMaxViol {
+		return false
+	}
+	keep := false
+	for _, v := range res.Viols {
+		if (*flagProp == "" || v.Prop == *flagProp) && keptPerSig[v.Sig] < maxPerSig {
+			keep = true
+		}
+	}
+	if keep {
+		for _, v := range res.Viols {
+			if *flagProp == "" || v.Prop == *flagProp {
+				keptPerSig[v.Sig]++
+			}
+		}
+	}
+	return keep
 }
 
 // nontrivial: the property's relevance probe fired in this run.
